@@ -505,7 +505,7 @@ class LogNormal(ContinuousDistribution):
 
         meansq = mean**2
         loc = torch.log(meansq / torch.sqrt(meansq + variance))
-        scale = torch.sqrt(torch.log(1 + variance / meansq))
+        scale = torch.sqrt(torch.log1p(variance / meansq))
 
         return loc, scale
 
